@@ -4238,6 +4238,9 @@ fn get_arg_type(s: &str, quoted: bool) -> ArgType {
         } else {
             ArgType::Integer
         }
+    } else if quoted {
+        //quotes make it a string, whatever it spells
+        ArgType::String
     } else {
         match s {
             "null" => ArgType::Null,
